@@ -200,7 +200,12 @@ func (m *machine) unbind(t *rapid.T) {
 	} else {
 		c = regs.DrawCall(t, m.w, "unbind")
 	}
-	want := m.binds[c.Key()]
+	regs.DrawForeignClientDev(t, m.w, &c, "unbind")
+	// a client address that names another device denotes no binding of the sender
+	want := m.binds[c.Key()] && c.ForeignClientDev == ""
+	if c.ForeignClientDev != "" {
+		world.Label("unbind/client-address-names-foreign-device")
+	}
 	m.w.Events.Drain()
 	n, ok := m.w.Do(c, world.UnbindCall(m.w.ClientAddr(c), m.w.ServerAddr(c)))
 	m.logf("unbind %s => results=%d ok=%v (model %v)", c, n, ok, want)
